@@ -39,13 +39,25 @@ def build(case):
     vs = [Variable(n) for n in case["vars"]]
     r = Result("SELECT")
     r.vars = vs
-    r.bindings = []
+    rows = []
     for row in case["rows"]:
         d = {}
         for v, c in zip(vs, row):
             if c is not None:
                 d[v] = T(c)
-        r.bindings.append(d)
+        rows.append(d)
+    lazy = case.get("lazy", 0)
+    if not lazy:
+        r.bindings = rows
+    else:
+        # the way a query hands its solutions over: a generator, read on demand. 2: the caller went through the rows before
+        # serialising, 3: ... and stopped after the first (the result is the same table whatever was looked at before)
+        r.bindings = (d for d in rows)
+        if lazy == 2:
+            list(r)
+        elif lazy == 3:
+            for _ in r:
+                break
     return r, vs
 
 
@@ -150,10 +162,17 @@ def read_xml_doc(data):
 
 
 # ---------------------------------------------------------------- W3C TSV writer (harness side)
+def uescape(s, style):
+    """style 2: characters outside ASCII (and a few inside) as \\uXXXX / \\UXXXXXXXX, as Turtle and SPARQL allow in strings and IRIs"""
+    if style != 2:
+        return s
+    return "".join(c if (" " <= c < "\x7f" and c not in "aeZ9") else ("\\u%04X" % ord(c) if ord(c) < 0x10000 else "\\U%08X" % ord(c)) for c in s)
+
+
 def tsv_term(c, style):
     k = c[0]
     if k == "u":
-        return "<" + c[1] + ">"
+        return "<" + uescape(c[1], style) + ">"
     if k == "b":
         return "_:" + c[1]
     lex, lang, dt = c[1], (c[2] if len(c) > 2 else None), (c[3] if len(c) > 3 else None)
@@ -163,7 +182,7 @@ def tsv_term(c, style):
                 "boolean": r"(true|false)\Z"}
         if re.match(pats[dt.split("#")[1]], lex):
             return lex
-    esc = lex.replace("\\", "\\\\").replace("\t", "\\t").replace("\n", "\\n").replace("\r", "\\r").replace('"', '\\"')
+    esc = "".join({"\\": "\\\\", "\t": "\\t", "\n": "\\n", "\r": "\\r", '"': '\\"'}.get(ch) or uescape(ch, style) for ch in lex)
     s = '"' + esc + '"'
     if lang:
         return s + "@" + lang
@@ -340,7 +359,8 @@ def table(xml_safe, tsv=False):
     return names.flatmap(lambda vs: st.fixed_dictionaries({
         "vars": st.just(vs),
         "rows": st.lists(st.lists(cell(xml_safe), min_size=len(vs), max_size=len(vs)), max_size=6),
-        "shorthand": st.integers(0, 1) if tsv else st.just(0),
+        "shorthand": st.integers(0, 2) if tsv else st.just(0),
+        "lazy": st.just(0) if tsv else st.sampled_from([0, 0, 1, 2, 3]),
     }))
 
 
